@@ -59,7 +59,7 @@ const char* const probe_names[PR__COUNT] = {
   "realloc_inplace", "realloc_moved", "zero_checked", "visit_checked", "alloc_null",
   "os_refused", "arena_alloc", "os_segment_alloc", "thread_data_cache_hit", "use_delayed_spin",
   "segment_purge_by_time", "arena_purge_by_time", "misuse_detected", "census", "giveback_checked",
-  "hugetlb_mmap", "hugetlb_madvise", "pinned_arena",
+  "hugetlb_mmap", "hugetlb_madvise", "pinned_arena", "arenas_8plus",
 };
 
 // ---------------------------------------------------------------------------------
